@@ -205,6 +205,25 @@ for _k, _v in R3.items():
     if _k in P and "text" in P[_k] and _v not in P[_k]["text"]:
         P[_k]["text"] += _v
 
+R6 = {
+ "C01": " Also (defect-hunt round): the address evaluated for an alignment inherits the caller's can_guess; #labelalign pads labels only; the alignment remainder is brought into 0..align before conversion (negative addresses).",
+ "C03": " Also (defect-hunt round): maybe_* accessors never unwrap; the command line is read through args_os; two file-writing groups never share a name; a user number never becomes a run-time format width unbounded (listed finding: group:65536).",
+ "C05": " Also (defect-hunt round): slice bounds are compared before either is converted; the string token ends where the unescaper's scan ends; byte strings are read as unsigned.",
+ "C06": " Also (defect-hunt round): a boolean field with a value takes that value; alignment at negative addresses.",
+ "C07": " Also (defect-hunt round): the end of a braced block and the operand lookahead are found token-wise (comments and strings skipped); listed finding: literal-over-expression precedence is decided by a rule-wide count.",
+ "C11": " Also (defect-hunt round): Intel HEX records cover whole address units starting at a unit address.",
+ "C12": " Also (defect-hunt round): a listing row's excerpt is one line; Mesen offsets scale the unit distance to bytes.",
+ "C14": " Also (defect-hunt round): listed finding: `.` and empty components of the including path are not cleared before `..` is collapsed.",
+ "C15": " Also (defect-hunt round): listed finding: the constants-only evaluators look names up in the global context.",
+ "C16": " Also (defect-hunt round): listed finding shared with C15 (dotted names in #if conditions).",
+ "C17": " Also (defect-hunt round): the alignment rules (guess flag, labels only).",
+ "C18": " Also (defect-hunt round): two file-writing groups never share a name (not consulted for -h/-v); no print_all in the driver is handed a constant colour flag.",
+ "C19": " Also (defect-hunt round): a WORD-class value is not a run-time format width or precision (listed finding: group:65536).",
+}
+for _k, _v in R6.items():
+    if _k in P and "text" in P[_k] and _v not in P[_k]["text"]:
+        P[_k]["text"] += _v
+
 
 def main():
     props = [json.loads(l) for l in open(os.path.join(VERIF, "properties.jsonl"))]
